@@ -23,7 +23,7 @@ ASSUMPTIONS = ["process TZ=UTC; a naive RELATIVE_BASE is the reference instant a
                "with a TIMEZONE setting the time-only form is checked as a validity predicate on instants (direction, within 24 h), "
                "the frozen UTC clock being the reference instant",
                "two-digit-year 02/29 whose century-shifted year is not a leap year has no valid answer and is skipped"]
-ESSENTIAL = ["form:weekday", "form:time", "form:month", "form:day_month", "form:yy", "same-weekday", "cross-month", "cross-year",
+ESSENTIAL = ["month:ref-day-missing-in-month", "form:weekday", "form:time", "form:month", "form:day_month", "form:yy", "same-weekday", "cross-month", "cross-year",
              "feb29", "pref:past", "pref:future", "pref:current_period"]
 
 MONTHS = ["January", "February", "March", "April", "May", "June", "July", "August", "September", "October",
@@ -82,6 +82,8 @@ def check_case(case):
     elif form == "month":
         s = MONTHS[case["m"] - 1] if case["style"] != 1 else MONTHS[case["m"] - 1][:3]
         want = None
+        if ref.day > mdays(2001, case["m"]):
+            cls.append("month:ref-day-missing-in-month")
     elif form == "day_month":
         m, d = case["m"], case["d"]
         s = ("%d %s" % (d, MONTHS[m - 1])) if case["style"] != 1 else ("%s %d" % (MONTHS[m - 1], d))
@@ -250,6 +252,11 @@ def cases(draw):
                 c["hm"] = [draw(st.sampled_from([0, 1, 2, 3])), draw(st.sampled_from([0, 30, 59]))]
     else:
         m = draw(st.one_of(st.integers(1, 12), st.just(ref[1]), st.just(ref[1] % 12 + 1)))
+        if form == "month" and draw(st.integers(0, 3)) == 0:
+            # a month name alone while the reference day (29, 30, 31) does not exist in that month
+            ref[1] = draw(st.sampled_from([1, 3, 5, 7, 8, 10, 12]))
+            ref[2] = draw(st.sampled_from([29, 30, 31]))
+            m = draw(st.sampled_from([2, 2, 4, 6, 9, 11]))
         c["m"] = m
         if form != "month":
             if draw(st.integers(0, 9)) == 0:
